@@ -405,7 +405,7 @@ inductive Res (α : Type)
   deriving Repr
 
 /-- state + exceptions; an exception keeps the state reached so far -/
-def M (α : Type) : Type := PState → Res α × PState
+abbrev M (α : Type) : Type := PState → Res α × PState
 
 @[inline] def M.pure {α} (a : α) : M α := fun s => (.ok a, s)
 @[inline] def M.bind {α β} (m : M α) (f : α → M β) : M β := fun s =>
@@ -436,11 +436,18 @@ def fire (f : Option Fault) (pass : Nat) (step : Step) : M Unit := fun s =>
   | some b => (.exc (.injected b), { s with fired := true })
   | none => (.ok (), s)
 
-/-- `for k in ks: <step k>` -/
+/-- a straight-line sequence of steps, each of which may raise -/
+def fireAll (f : Option Fault) (pass : Nat) : List Step → M Unit
+  | [] => pure ()
+  | st :: t => do
+    fire f pass st
+    fireAll f pass t
+
+/-- `for k in ks: <steps of iteration k>` -/
 def fireEach (f : Option Fault) (pass : Nat) (mk : Nat → List Step) : List Nat → M Unit
   | [] => pure ()
   | k :: t => do
-    (mk k).forM (fun st => fire f pass st)
+    fireAll f pass (mk k)
     fireEach f pass mk t
 
 /-! ### the problem as the glue sees it, and the outside world -/
@@ -493,11 +500,13 @@ def guard (w : World) (pass : Nat) (solver : String) (strict : Bool) (vars : Lis
     emit (.warnRelax solver (d.map (·.name)))
 
 /-- `cache = problem._solver_cache; if cache is None: cache = _build_solver_cache(…);
-    problem._solver_cache = cache` — the assignment happens only after the build returned -/
-def ensureCache (w : World) (pass : Nat) (p : Problem) : M (List CKey) := do
+    problem._solver_cache = cache` — the assignment happens only after the build returned.
+    From here on the local `cache` *is* the dict stored on the problem, so the following steps
+    read and update `solverCache` in the state. -/
+def ensureCache (w : World) (pass : Nat) (p : Problem) : M Unit := do
   let s ← getState
   match s.solverCache with
-  | some keys => pure keys
+  | some _ => pure ()
   | none =>
     if !p.hasObjective then raise .noObjective
     else do
@@ -505,24 +514,31 @@ def ensureCache (w : World) (pass : Nat) (p : Problem) : M (List CKey) := do
       fire w.fault pass .buildGrad
       fireEach w.fault pass (fun k => [.buildCon k, .buildJac k]) (List.range p.cons.length)
       setSolverCache (some builtKeys)
-      pure builtKeys
 
-/-- `cache["obj_fn"]`, `cache["grad_fn"]`, `cache["scipy_constraints"]`, then `cache["bounds"] = bounds` -/
-def useCache (keys : List CKey) : M (List CKey) :=
-  if keys.contains .objFn && keys.contains .gradFn && keys.contains .scipyConstraints then do
-    let keys' := if keys.contains .bounds then keys else keys ++ [.bounds]
-    setSolverCache (some keys')
-    pure keys'
-  else raise .key
+/-- `cache["obj_fn"]`, `cache["grad_fn"]`, `cache["scipy_constraints"]` (KeyError when absent),
+    then `cache["bounds"] = bounds` -/
+def useCache : M Unit := do
+  let s ← getState
+  match s.solverCache with
+  | none => raise .key
+  | some keys =>
+    if keys.contains .objFn && keys.contains .gradFn && keys.contains .scipyConstraints then
+      (if keys.contains .bounds then pure () else setSolverCache (some (keys ++ [.bounds])))
+    else raise .key
 
-/-- the lazily compiled Hessian: the key is added only after `compile_hessian` returned -/
-def ensureHess (w : World) (pass : Nat) (o : Opts) (method : String) (keys : List CKey) : M Bool :=
-  if o.useHessian && Generated.hessianMethods.contains method then
-    if keys.contains .hessFn then pure true
-    else do
-      fire w.fault pass .compileHess
-      setSolverCache (some (keys ++ [.hessFn]))
-      pure true
+/-- the lazily compiled Hessian: `cache["hess_fn"]` is assigned only after `compile_hessian`
+    returned.  Returns whether `hess=` is passed to `minimize`. -/
+def ensureHess (w : World) (pass : Nat) (o : Opts) (method : String) : M Bool :=
+  if o.useHessian && Generated.hessianMethods.contains method then do
+    let s ← getState
+    match s.solverCache with
+    | none => raise .key
+    | some keys =>
+      if keys.contains .hessFn then pure true
+      else do
+        fire w.fault pass .compileHess
+        setSolverCache (some (keys ++ [.hessFn]))
+        pure true
   else pure false
 
 def minArgs (p : Problem) (method : String) (useHess : Bool) : MinArgs :=
@@ -532,21 +548,29 @@ def minArgs (p : Problem) (method : String) (useHess : Bool) : MinArgs :=
     bounds := if !p.vars.isEmpty && Generated.boundsMethods.contains method then some (p.vars.map PVar.bnd) else none
     nCons := p.cons.length }
 
+/-- `try: body  except Exception as e: handler(e)` — BaseException-only classes propagate -/
+def tryExcept {α} (body : M α) (handler : Exc → M α) : M α := fun s =>
+  match body s with
+  | (.ok a, s') => (.ok a, s')
+  | (.exc e, s') => if e.isException then handler e s' else (.exc e, s')
+
+/-- `old = warnings.showwarning; try: warnings.showwarning = h; … finally: warnings.showwarning = old`
+    (the `except` branch of `solve_scipy` restores it too, before the `finally` does) -/
+def withHook {α} (h : Nat) (body : M α) : M α := fun s =>
+  match body { s with hook := h } with
+  | (r, s') => (r, { s' with hook := s.hook })
+
+/-- the call `minimize(fun=…, method=…, …)` itself: the solver runs (and may raise) -/
+def minimizeCall (w : World) (pass : Nat) (a : MinArgs) : M (Option ScipyResult) := do
+  emit (.minimizeCall a)
+  fire w.fault pass .minimize
+  pure (some (if pass == 0 then w.r1 else w.r2))
+
 /-- `old = warnings.showwarning; try: warnings.showwarning = handler; result = minimize(…)
     except Exception: restore; return FAILED   finally: restore`.
     `none` = the `except Exception` branch was taken. -/
-def minimizeBlock (w : World) (pass : Nat) (a : MinArgs) : M (Option ScipyResult) := fun s =>
-  let old := s.hook
-  let body : M ScipyResult := do
-    setHook handlerId
-    emit (.minimizeCall a)
-    fire w.fault pass .minimize
-    pure (if pass == 0 then w.r1 else w.r2)
-  match body s with
-  | (.ok r, s') => (.ok (some r), { s' with hook := old })                         -- finally
-  | (.exc e, s') =>
-    if e.isException then (.ok none, { s' with hook := old })                       -- except + finally
-    else (.exc e, { s' with hook := old })                                          -- finally, propagate
+def minimizeBlock (w : World) (pass : Nat) (a : MinArgs) : M (Option ScipyResult) :=
+  withHook handlerId (tryExcept (minimizeCall w pass a) (fun _ => pure none))
 
 /-- one call of `solve_scipy`; `none` = it ends in the recursive retry call -/
 def scipyPass (w : World) (p : Problem) (o : Opts) (pass : Nat) (method : String) : M (Option Solution) := do
@@ -554,9 +578,9 @@ def scipyPass (w : World) (p : Problem) (o : Opts) (pass : Nat) (method : String
   if p.vars.isEmpty then pure (some failedSolution)
   else do
     guard w pass "SciPy" o.strict p.vars
-    let keys ← ensureCache w pass p
-    let keys ← useCache keys
-    let useHess ← ensureHess w pass o method keys
+    ensureCache w pass p
+    useCache
+    let useHess ← ensureHess w pass o method
     let r? ← minimizeBlock w pass (minArgs p method useHess)
     match r? with
     | none => pure (some failedSolution)
@@ -584,26 +608,23 @@ def solveScipy (w : World) (p : Problem) (o : Opts) (method : String) : M Soluti
 def linArgs (p : Problem) (method : String) : LinArgs :=
   { method := method, cost := lpCost p.lpInfo, bounds := p.vars.map PVar.bnd }
 
-/-- `try: result = linprog(**kw)  except Exception: return FAILED` -/
-def linprogBlock (w : World) (a : LinArgs) : M (Option LPResult) := fun s =>
-  let body : M LPResult := do
-    emit (.linprogCall a)
-    fire w.fault 0 .linprog
-    pure w.lr
-  match body s with
-  | (.ok r, s') => (.ok (some r), s')
-  | (.exc e, s') => if e.isException then (.ok none, s') else (.exc e, s')
+/-- `try: result = linprog(**kw)  except Exception: return FAILED`; `none` = the except branch -/
+def linprogBlock (w : World) (a : LinArgs) : M (Option LPResult) :=
+  tryExcept (do
+      emit (.linprogCall a)
+      fire w.fault 0 .linprog
+      pure (some w.lr))
+    (fun _ => pure none)
 
 /-- `if problem._lp_cache is not None: reuse (bounds re-read) else: try: extract; cache  except Exception: raise SolverError` -/
-def ensureLp (w : World) : M Unit := fun s =>
-  if s.lpCache then (.ok (), s)
+def ensureLp (w : World) : M Unit := do
+  let s ← getState
+  if s.lpCache then pure ()
   else
-    let body : M Unit := do
-      fire w.fault 0 .extract
-      setLpCache true
-    match body s with
-    | (.ok u, s') => (.ok u, s')
-    | (.exc e, s') => if e.isException then (.exc .solverError, s') else (.exc e, s')
+    tryExcept (do
+        fire w.fault 0 .extract
+        setLpCache true)
+      (fun _ => raise .solverError)
 
 /-- `solve_lp` -/
 def solveLP (w : World) (p : Problem) (method : Option String) (strict : Bool) : M Solution := do
@@ -682,6 +703,72 @@ def CacheValid (s : PState) : Prop :=
 
 instance (s : PState) : Decidable (CacheValid s) := by
   unfold CacheValid; cases s.solverCache <;> exact inferInstance
+
+/-! ### the fault-free functional form of a solve
+
+  What `solve` computes when nothing raises unexpectedly, as a pure function of the problem, the
+  options and the solver answers: result + the events it emits.  `Lemmas/Solve.lean` proves that the
+  monadic model above agrees with it from every valid cache state (`solve_det`). -/
+
+/-- the guard as a pure function: (exception raised?, events emitted) -/
+def guardPure (solver : String) (strict : Bool) (vars : List PVar) : Option Exc × List Event :=
+  let d := nonContinuous vars
+  if d.isEmpty then (none, [])
+  else if strict then (some (.integerVariable solver (d.map (·.name))), [])
+  else (none, [.warnRelax solver (d.map (·.name))])
+
+def hessFlag (o : Opts) (method : String) : Bool := o.useHessian && Generated.hessianMethods.contains method
+
+/-- one call of `solve_scipy` (`none` = it ends in the retry) -/
+def passPure (w : World) (p : Problem) (o : Opts) (pass : Nat) (method : String) :
+    Res (Option Solution) × List Event :=
+  if p.vars.isEmpty then (.ok (some failedSolution), [])
+  else
+    match guardPure "SciPy" o.strict p.vars with
+    | (some e, evs) => (.exc e, evs)
+    | (none, warn) =>
+      let evs := warn ++ [.minimizeCall (minArgs p method (hessFlag o method))]
+      match postPass (p.cfg o) method (if pass == 0 then w.r1 else w.r2) with
+      | .raised e => (.exc e, evs)
+      | .done s => (.ok (some s), evs)
+      | .retry => (.ok none, evs ++ [.warnRetry])
+
+def scipyPureF (w : World) (p : Problem) (o : Opts) : Nat → Nat → String → Res Solution × List Event
+  | 0, _, _ => (.exc .recursion, [])
+  | k + 1, pass, method =>
+    match passPure w p o pass method with
+    | (.ok (some s), evs) => (.ok s, evs)
+    | (.ok none, evs) =>
+      let r := scipyPureF w p o k (pass + 1) "trust-constr"
+      (r.1, evs ++ r.2)
+    | (.exc e, evs) => (.exc e, evs)
+
+def scipyPure (w : World) (p : Problem) (o : Opts) (method : String) : Res Solution × List Event :=
+  scipyPureF w p o 2 0 method
+
+def lpPure (w : World) (p : Problem) (method : Option String) (strict : Bool) : Res Solution × List Event :=
+  if !p.hasObjective then (.exc .noObjective, [])
+  else if !p.objLinear then (.exc .nonLinear, [])
+  else if !p.cons.all (·.linear) then (.exc .nonLinear, [])
+  else
+    match guardPure "linprog" strict p.vars with
+    | (some e, evs) => (.exc e, evs)
+    | (none, warn) =>
+      let evs := warn ++ [.linprogCall (linArgs p (method.getD "highs"))]
+      match postSolveLP p.lpInfo w.lr with
+      | .ok s => (.ok s, evs)
+      | .error e => (.exc e, evs)
+
+def solvePure (w : World) (p : Problem) (o : Opts) : Res Solution × List Event :=
+  if !p.hasObjective then (.exc .noObjective, [])
+  else
+    match route o.method p.isLinear p.objDeg (p.cons.map (·.deg)) with
+    | .lp m => lpPure w p m o.strict
+    | .scipy m => scipyPure w p o m
+
+/-- the same problem with every domain attribute set to "continuous" (bounds untouched) -/
+def Problem.relax (p : Problem) : Problem :=
+  { p with vars := p.vars.map fun v => { v with domain := .continuous } }
 
 /-! ### handles: VectorVariable / MatrixVariable and their views -/
 
